@@ -503,6 +503,9 @@ class Gen:
 
     def raw_stmt(self, sc):
         r = self.r
+        if sc.kind != 'main' and r.random() < 0.2:
+            # a RETURN in a procedure that never did a GOSUB
+            return {'k': 'raw', 'text': 'return'}
         if r.random() < 0.25:
             # '^' with benign operands
             lv = self.pick_lvalue(sc, '#') or ['var', self.new_scalar(sc, '#')]
